@@ -5,9 +5,12 @@ CHECK = {
                         "C14.gen_max_cloak", "C14.gen_structure", "C14.write_eq", "C14.read_eq", "DgDemux.isolation",
                         "C14.c14_entry_whole", "C14.c14_entry_transparent", "C14.c14_readfrom_whole", "C14.c14_readfrom_stream_unchanged",
                         "C14.gen_entry", "C14.gen_readfrom", "C14.gen_readfrom_refuses", "C14.gen_readfrom_room",
-                        "C14.c14_entry_pinned_witness", "C14.c14_entry_pinned_truncates", "C14.c14_readfrom_pinned_witness"],
-        "scenarios": ["C14"],
-        "reset_ops": ["dg.new", "dg.snew"],
+                        "C14.c14_entry_pinned_witness", "C14.c14_entry_pinned_truncates", "C14.c14_readfrom_pinned_witness",
+                        "C14R.gen_route_reuse", "C14R.gen_route_structure", "C14R.gen_route_tcp", "C14R.inv_step", "C14R.c14r_isolation_in", "C14R.c14r_isolation_back",
+                        "C14R.c14r_table_sound", "C14R.c14r_singleplex", "C14R.c14r_table_complete_witness"],
+        "lean_module": "CloakModel.Props.C14All",
+        "scenarios": ["C14", "C14route"],
+        "reset_ops": ["dg.new", "dg.snew", "rt.new"],
         "rule": "(c) entry points from a UDP socket: Stream.ReadFrom on unordered streams fed by a packet-oriented source (one Read = one datagram, "
                 "excess discarded; sizes 1..max-1, max, max+1, max+2, max+300, 40000, 65507 + seeded, four methods, limit default/16401) and by a byte source; "
                 "the REAL client.RouteUDP bound to 127.0.0.1:0 (loopback UDP, real time, 4 s deadline + one retry; non-arrival is not a violation) with datagrams of "
